@@ -61,12 +61,22 @@ ASSUMPTIONS = [
     "Euler extraction treats |theta| < 1e-7 rad as gimbal lock (measured loss 3.5e-9 on near-gimbal inputs); positions with "
     "1e-9*max(1,|s|) + 1e-13*max|centre|",
     "|shift| <= 0.5 is checked exactly as stated (either rounding direction at a half-integer tie is accepted)",
+    "out of domain by ruling (forms, not values; the unchanged tree fails on them): offset given as a numpy/pandas container of "
+    "dtype int8/int16/float16/float32/unsigned (cryoCAT computes rho in that dtype: int8 [13,-7,5] -> NaN positions, float32 -> "
+    "4e-7 px error); float64/int64/int32 arrays, non-contiguous / negative-stride / read-only views, pd.Series, lists and tuples are in",
+    "out of domain by ruling: particle lists whose shift_* or phi/theta/psi columns are not float64 or whose x,y,z are float32 "
+    "(pandas 3 raises TypeError when the float results are written into such columns); integer-typed x,y,z, integer-typed "
+    "id/label columns and a float32 score are in",
+    "out of domain by ruling: symmetry given as a 0-d numpy array (UnboundLocalError on the unchanged tree)",
+    "any column order of the 20 fields, any row index (repeated, reversed, gapped labels), DataFrame.attrs and extra attributes on "
+    "the Motl object are inside the quantifier; an object returned by split / update_coordinates / shift_positions is judged like "
+    "a fresh list with the same values",
 ]
 
 CLASSES = ["divisor", "nondivisor", "n1", "n_33_64", "on_axis", "zero_offset", "inplane_offset", "int_offset",
            "single_particle", "many_particles", "gimbal", "near_gimbal", "wide_angles", "half_ties", "large_signed_pos",
            "odd_ids_index", "zero_shift", "history_reorient", "history_move", "history_symmetry", "glued_index",
-           "theta_outside", "block_sizes", "repr_bounds", "duplicates"]
+           "theta_outside", "block_sizes", "repr_bounds", "duplicates", "chained", "constant_columns"]
 SPELLINGS = ["Cn", "cn", "int", "float", "np.int64", "np.float64"]
 CLAUSES = ["rows_per_parent", "subunit_index", "orientation", "position", "unique_ids", "inherited", "integral"]
 NONDIV = [n for n in range(1, 65) if 360 % n]
@@ -85,7 +95,12 @@ ANGLE_EDITS = ["apply_rotation", "flip_handedness", "assign_angle_columns", "loc
                "iloc_some_rows_angles", "flip_handedness_dims"]
 MOVE_EDITS = ["add_to_columns", "loc_assign_shifts", "scale_coordinates", "iloc_some_rows_pos", "renumber_ids", "reorder_rows",
               "edit_fields", "caller_handle_pos"]
-CONTAINERS = ["ndarray", "list", "tuple", "int_list", "int_tuple", "int_ndarray"]
+CONTAINERS = ["ndarray", "list", "tuple", "int_list", "int_tuple", "int_ndarray", "view_noncontig", "view_negstride_readonly",
+              "series"]
+FLOAT_CONTAINERS = ["ndarray", "list", "tuple", "view_noncontig", "view_negstride_readonly", "series"]
+# column layouts of the caller's DataFrame (Motl() accepts any order of the 20 names)
+LAYOUTS = ["canonical", "reversed", "sorted_desc", "zyx_dict", "random_perm", "sorted_asc", "shifts_first_zyx"]
+IKINDS = ["default", "glued", "reversed", "gapped_permuted", "default"]
 
 
 def plan(tier):
@@ -93,7 +108,7 @@ def plan(tier):
     # update_coordinates counted here is called directly by run_case / extra
     if tier == "quick":
         call_min = 1500
-        return dict(n_cases=20 * len(CLASSES), shards=3, classes=CLASSES, timeout_s=900,
+        return dict(n_cases=20 * len(CLASSES), shards=4, classes=CLASSES, timeout_s=900,
                     min_evals=dict({c: call_min for c in CLAUSES}, recentre=800, back_to_centre=call_min, z_orbit=call_min,
                                    spelling_agree=450, on_axis_coincide=300, repeat_agree=30),
                     min_anchor_calls={"Motl.split_in_asymmetric_subunits": call_min})
@@ -112,9 +127,10 @@ def spell(n, sp):
 # ---- call monitors ------------------------------------------------------------------------------
 def _split_applicable(A):
     n, _ = orc.parse_symmetry(A["symmetry"])
-    if n is None or orc.offset_vector(A["xyz_shift"]) is None:
+    if n is None or orc.offset_vector(A["xyz_shift"]) is None or not orc.offset_form_in_domain(A["xyz_shift"]):
         return False
-    return orc.table_in_domain(getattr(A["self"], "df", None))
+    df = getattr(A["self"], "df", None)
+    return orc.table_in_domain(df) and orc.table_form_in_domain(df)
 
 
 def _split_snapshot(A):
@@ -208,7 +224,7 @@ def setup(ctx):
 # ---- generator ----------------------------------------------------------------------------------
 def _offset(rng, cls):
     """-> (values, container kind)"""
-    kind = ["ndarray", "list", "tuple"][int(rng.integers(0, 3))]
+    kind = FLOAT_CONTAINERS[int(rng.integers(0, len(FLOAT_CONTAINERS)))]
     mag = float(rng.choice([1.0, 1.0, 1.0, 10.0, 0.01]))
     v = rng.uniform(-30, 30, 3) * mag
     if cls == "on_axis":
@@ -217,6 +233,8 @@ def _offset(rng, cls):
             v[2] = float(rng.integers(1, 40) * rng.choice([-1, 1]))
     elif cls == "zero_offset":
         v[:] = 0.0
+        if rng.random() < 0.5:
+            v = np.array([-0.0, 0.0, -0.0])
     elif cls == "inplane_offset":
         v[2] = 0.0
         q = int(rng.integers(0, 5))          # also the axes of the plane: (-a,0,0), (0,+-a,0)
@@ -237,8 +255,24 @@ def _offset(rng, cls):
 
 
 def _container(v, kind):
+    """the offset as the caller holds it; the expected value is always computed from the values the object holds"""
     if kind == "ndarray":
         return np.array(v, dtype=float)
+    if kind == "view_noncontig":                       # every third element of a longer array / a column of a C-ordered matrix
+        if float(v[0]) >= 0:
+            big = np.full(9, 777.0)
+            big[::3] = v
+            return big[::3]
+        M = np.full((3, 4), -555.0)
+        M[:, 2] = v
+        return M[:, 2]
+    if kind == "view_negstride_readonly":              # negative-stride view, not writeable
+        a = np.array(v, dtype=float)[::-1].copy()
+        w = a[::-1]
+        w.flags.writeable = False
+        return w
+    if kind == "series":
+        return pd.Series(np.array(v, dtype=float), index=[7, 7, 3])
     if kind == "list":
         return [float(x) for x in v]
     if kind == "tuple":
@@ -247,7 +281,7 @@ def _container(v, kind):
         return [int(x) for x in v]
     if kind == "int_tuple":
         return tuple(int(x) for x in v)
-    return np.array(v, dtype=np.int64)
+    return np.array(v, dtype=np.int64 if int(v[0]) % 2 == 0 else np.int32)
 
 
 def _plant_repr(rq, df, j):
@@ -280,6 +314,44 @@ def _plant_repr(rq, df, j):
                 df.at[r, c] = np.nextafter(k - 0.5, np.inf); df.at[r, "shift_" + c] = 0.0; ulp_ties += 1
             # kind 5: ordinary fractional shift as generated
     return {"ids_from": base + 1.0, "coordinates": ck, "cells_an_ulp_from_a_tie": ulp_ties}
+
+
+def _constant_columns(rq, df, j):
+    """value-specific semantics: columns that are 0 everywhere / hold a single distinct value"""
+    N = len(df)
+    picks = [["class", "score"], ["tomo_id", "object_id"], ["phi", "theta", "psi"], ["geom1", "geom2", "geom3", "geom4", "geom5"],
+             ["x", "y", "z"], ["shift_x", "shift_y", "shift_z"], ["subtomo_mean", "score", "class", "tomo_id", "object_id"]]
+    for grp in (picks[j % len(picks)], picks[int(rq.integers(0, len(picks)))]):
+        zero = rq.random() < 0.6
+        for c in grp:
+            df[c] = 0.0 if zero else float(df[c].iloc[0])
+
+
+def _plan_chain(rq, j, n, s):
+    """the object another anchor returned is the input: kinds of hand-over"""
+    kinds = ["result_object", "result_df_permuted", "result_modified_attrs", "after_update_coordinates", "after_shift_positions",
+             "deepcopy_of_result", "subset_of_result"]
+    return {"kind": kinds[j % len(kinds)], "n2": int(rq.choice([2, 3, 4, 5, 7, 8])), "s2": rq.uniform(-20, 20, 3),
+            "layout2": LAYOUTS[int(rq.integers(1, len(LAYOUTS)))]}
+
+
+def _layout_columns(layout, seed):
+    C = list(gens.COLS)
+    if layout == "reversed":
+        return C[::-1]
+    if layout == "sorted_desc":
+        return sorted(C, reverse=True)
+    if layout == "sorted_asc":
+        return sorted(C)
+    if layout == "zyx_dict":
+        return ["subtomo_id", "tomo_id", "z", "y", "x", "shift_z", "shift_y", "shift_x", "psi", "theta", "phi", "score", "class",
+                "object_id", "subtomo_mean", "geom1", "geom2", "geom3", "geom4", "geom5"]
+    if layout == "shifts_first_zyx":
+        first = ["shift_z", "shift_x", "shift_y", "psi", "phi", "theta", "y", "z", "x"]
+        return first + [c for c in C if c not in first]
+    if layout == "random_perm":
+        return [C[k] for k in np.random.default_rng([int(seed), 77]).permutation(len(C))]
+    return C
 
 
 def _plan_history(rq, cls, j, n, s, thorough):
@@ -364,6 +436,9 @@ def gen(ctx, i, cls):
         n = min(n, 32)
     elif cls == "duplicates":
         N = 2 * int(rng.integers(1, 8))
+    elif cls == "chained":
+        N = int(rng.choice([1, 2, 3, 4]))
+        n = int(rng.choice([2, 3, 4, 5, 6, 7]))
     if cls not in ("many_particles", "block_sizes") and N * n > 2000:                  # bounds the work; the full 100 x 64 corner is in many_particles
         N = max(1, 2000 // n)
     ori = {"gimbal": "gimbal", "near_gimbal": "near_gimbal", "wide_angles": "wide", "half_ties": "lattice"}.get(cls, "mixed")
@@ -436,6 +511,33 @@ def gen(ctx, i, cls):
             a = int(rq.integers(1, N))
             glued = [a, N - a]
         index = None
+    j, k_cls = i // len(CLASSES), i % len(CLASSES)
+    layout = LAYOUTS[(j + k_cls) % len(LAYOUTS)]
+    ikind = IKINDS[(j + 2 * k_cls) % len(IKINDS)]
+    if index is None and glued is None and N >= 2:
+        if ikind == "glued":
+            glued = [N // 2, N - N // 2]
+        elif ikind == "reversed":
+            index = np.arange(N)[::-1]
+        elif ikind == "gapped_permuted":
+            index = rq.permutation(N) * 3 + 5
+    # safe dtype variants (values unchanged): integer-typed x,y,z where they are whole numbers, integer id/label columns, float32 score
+    dtypes = {}
+    if rq.random() < 0.3:
+        for c in ("subtomo_id", "tomo_id", "object_id", "class", "geom3"):
+            if df[c].abs().max() < 2.0 ** 52:
+                dtypes[c] = "int64"
+    if rq.random() < 0.5 and bool((df[["x", "y", "z"]].to_numpy() == np.round(df[["x", "y", "z"]].to_numpy())).all()) \
+            and df[["x", "y", "z"]].abs().to_numpy().max() < 2.0 ** 30:
+        for c in ("x", "y", "z"):
+            dtypes[c] = "int32" if rq.random() < 0.5 else "int64"
+    attrs = rq.random() < 0.3
+    if rq.random() < 0.3:                                         # class 0 / score 0 / tomogram 0 rows
+        z0 = rq.random(N) < 0.6
+        df.loc[z0, "class"] = 0.0
+        df.loc[z0, "score"] = 0.0
+    if cls == "constant_columns":
+        _constant_columns(rq, df, j)
     s, kind = _offset(rng, cls)
     if cls == "repr_bounds":
         mode = (i // len(CLASSES)) % 4
@@ -450,12 +552,15 @@ def gen(ctx, i, cls):
     sp = SPELLINGS[(i // len(CLASSES)) % len(SPELLINGS)]
     alt = SPELLINGS[((i // len(CLASSES)) + 1 + int(rng.integers(0, len(SPELLINGS) - 1))) % len(SPELLINGS)]
     on_axis = bool(s[0] == 0 and s[1] == 0)
-    case = {"i": i, "cls": cls, "df": df, "index": index, "glued": glued, "n": n, "spelling": sp, "alt_spelling": alt, "s": s,
+    chain = _plan_chain(rq, j, n, s) if cls == "chained" else None
+    case = {"i": i, "cls": cls, "df": df, "index": index, "glued": glued, "layout": layout, "dtypes": dtypes, "attrs": attrs,
+            "chain": chain, "n": n, "spelling": sp, "alt_spelling": alt, "s": s,
             "s_kind": kind, "on_axis": on_axis, "history": history}
     case["summary"] = {"n": n, "symmetry": repr(spell(n, sp)), "alt": repr(spell(n, alt)), "particles": N,
                        "offset": [float(x) for x in s], "offset_container": kind, "orientation_kind": ori,
                        "index": ("glued %s" % glued) if glued else ("default" if index is None else "odd"), "class": cls,
-                       "parents_with_all_shifts_zero": n_zero, "planted": repr_note,
+                       "parents_with_all_shifts_zero": n_zero, "planted": repr_note, "column_layout": layout,
+                       "column_dtypes": dtypes, "attrs": attrs, "chain": chain and chain["kind"],
                        "history": None if history is None else [(st["op"], st.get("name") or "n=%d %s" % (st["n"], st["spelling"]))
                                                                 for st in history],
                        "row0": {k: float(df[k].iloc[0]) for k in ("subtomo_id", "x", "y", "z", "shift_x", "shift_y", "shift_z",
@@ -487,9 +592,16 @@ def _relational(ctx, parent, n, s, out, on_axis, tag):
         ctx.check("on_axis_coincide", w is None, w)
 
 
-def _table(df, index=None, glued=None):
-    """the caller's table: default index, an odd index, or pieces glued with pd.concat without ignore_index (repeated labels)"""
+def _table(df, index=None, glued=None, layout=None, seed=0, dtypes=None, attrs=False):
+    """the caller's table: column layout (built field by field from a dict in that order), safe dtype variants, default index,
+    an odd index, or pieces glued with pd.concat without ignore_index (repeated labels), optional DataFrame.attrs"""
     t = df.copy()
+    if layout and layout != "canonical":
+        t = pd.DataFrame({c: t[c].to_numpy() for c in _layout_columns(layout, seed)})
+    for c, dt in (dtypes or {}).items():
+        t[c] = t[c].astype(dt)
+    if attrs:
+        t.attrs = {"origin": "glued from two lists", "pixel_size": 1.35}
     if glued:
         cuts = np.cumsum([0] + list(glued))
         t = pd.concat([t.iloc[a:b].reset_index(drop=True) for a, b in zip(cuts[:-1], cuts[1:])])
@@ -498,9 +610,13 @@ def _table(df, index=None, glued=None):
     return t
 
 
-def _split(ctx, df, index, sym, s_arg, label, glued=None, direct_recentre=True):
-    t = _table(df, index, glued)
+def _split(ctx, df, index, sym, s_arg, label, glued=None, direct_recentre=True, layout=None, seed=0, dtypes=None, attrs=False):
+    t = _table(df, index, glued, layout, seed, dtypes, attrs)
+    if layout and layout != "canonical":
+        ctx.extra["tables_in_layout_" + layout] = ctx.extra.get("tables_in_layout_" + layout, 0) + 1
     ok, m = ctx.call("Motl(df)", ctx.cm.Motl, t)
+    if ok and attrs:
+        m.provenance = {"made_by": "driver"}                       # an extra attribute carried along on the object
     if not ok:
         return None, None
     ok, res = ctx.call(label, m.split_in_asymmetric_subunits, sym, s_arg)
@@ -583,7 +699,7 @@ def _apply_edit(ctx, m, t, name, rng):
 
 def run_history(ctx, case):
     rng = ctx.rng(case["i"], 5)
-    t = _table(case["df"], case["index"], case["glued"])
+    t = _table(case["df"], case["index"], case["glued"], case["layout"], case["i"], case["dtypes"], case["attrs"])
     ok, m = ctx.call("Motl(df)", ctx.cm.Motl, t)
     if not ok:
         return
@@ -617,21 +733,69 @@ def run_history(ctx, case):
         ctx.call("update_coordinates(parents)", m2.update_coordinates)
 
 
+def run_chain(ctx, case):
+    """the object another anchor function produced is handed to the expansion, judged like a fresh list with the same values"""
+    import copy
+    ch = case["chain"]
+    n, s = case["n"], case["s"]
+    t = _table(case["df"], case["index"], case["glued"], case["layout"], case["i"], case["dtypes"], case["attrs"])
+    ok, m = ctx.call("Motl(df)", ctx.cm.Motl, t)
+    if not ok:
+        return
+    kind = ch["kind"]
+    if kind in ("after_update_coordinates", "after_shift_positions"):
+        if kind == "after_update_coordinates":
+            ok, _ = ctx.call("update_coordinates(parents)", m.update_coordinates)
+        else:
+            ok, _ = ctx.call("shift_positions", m.shift_positions, np.array(ch["s2"]))
+        if not ok:
+            return
+        src = m
+    else:
+        ok, r1 = ctx.call("split(%s)" % case["spelling"], m.split_in_asymmetric_subunits, spell(n, case["spelling"]),
+                          _container(s, case["s_kind"]))
+        if not ok:
+            return
+        _relational(ctx, t, n, s, r1.df, case["on_axis"], "first generation")
+        src = r1
+        if kind == "result_df_permuted":
+            src = ctx.cm.Motl(pd.DataFrame({c: r1.df[c].to_numpy() for c in _layout_columns(ch["layout2"], case["i"] + 1)}))
+        elif kind == "result_modified_attrs":
+            r1.df["score"] = np.round(r1.df["score"] * 0.5, 6)
+            r1.df.attrs["expanded"] = True
+            r1.note = "first generation"
+        elif kind == "deepcopy_of_result":
+            src = copy.deepcopy(r1)
+        elif kind == "subset_of_result":
+            keep = r1.df[r1.df["geom2"] <= max(1, n // 2)]
+            src = ctx.cm.Motl(keep)                                 # keeps the gapped index of the selection
+    ctx.extra["chained_inputs_" + kind] = ctx.extra.get("chained_inputs_" + kind, 0) + 1
+    for n2, sp2 in ((ch["n2"], case["alt_spelling"]), (n, case["spelling"])):
+        parent = src.df.copy()
+        ok, r2 = ctx.call("split(%s)" % sp2, src.split_in_asymmetric_subunits, spell(n2, sp2), np.array(ch["s2"]))
+        if ok:
+            _relational(ctx, parent, n2, np.array(ch["s2"]), r2.df, False, "second generation (%s)" % kind)
+    ok2, m2 = ctx.call("Motl(df)", ctx.cm.Motl, src.df.copy())
+    if ok2:
+        ctx.call("update_coordinates(parents)", m2.update_coordinates)
+
+
 def run_case(ctx, case):
     if case["history"] is not None:
         return run_history(ctx, case)
+    if case["chain"] is not None:
+        return run_chain(ctx, case)
     n, s = case["n"], case["s"]
     sym = spell(n, case["spelling"])
-    out, parent = _split(ctx, case["df"], case["index"], sym, _container(s, case["s_kind"]), "split(%s)" % case["spelling"],
-                         glued=case["glued"])
+    kw = dict(glued=case["glued"], layout=case["layout"], seed=case["i"], dtypes=case["dtypes"], attrs=case["attrs"])
+    out, parent = _split(ctx, case["df"], case["index"], sym, _container(s, case["s_kind"]), "split(%s)" % case["spelling"], **kw)
     if out is None:
         return
     _relational(ctx, case["df"], n, s, out, case["on_axis"], repr(sym))
     if len(out) > 1100:                                            # the big block-boundary lists are expanded once
         return
     sym2 = spell(n, case["alt_spelling"])
-    out2, _ = _split(ctx, case["df"], case["index"], sym2, np.array(s, dtype=float), "split(%s)" % case["alt_spelling"],
-                     glued=case["glued"])
+    out2, _ = _split(ctx, case["df"], case["index"], sym2, np.array(s, dtype=float), "split(%s)" % case["alt_spelling"], **kw)
     if out2 is None:
         return
     _relational(ctx, case["df"], n, s, out2, case["on_axis"], repr(sym2))
@@ -660,7 +824,8 @@ def extra(ctx):
         outs = []
         done = 0
         for sp in SPELLINGS:
-            out, _ = _split(ctx, df, None, spell(n, sp), np.array(s), "split(%s)" % sp)
+            out, _ = _split(ctx, df, None, spell(n, sp), np.array(s), "split(%s)" % sp,
+                            layout=LAYOUTS[(n + SPELLINGS.index(sp)) % len(LAYOUTS)], seed=n)
             calls += 1
             if out is not None:
                 done += 1
@@ -671,7 +836,7 @@ def extra(ctx):
             ctx.check("spelling_agree", ok, None if w is None else dict(w, a=outs[0][0], b=sp, n=n))
         for s2 in (np.array([0.0, 0.0, float(s[2])]), np.zeros(3)):
             sp = SPELLINGS[(n + int(s2[2] != 0)) % len(SPELLINGS)]
-            out, _ = _split(ctx, df, None, spell(n, sp), s2, "split(%s)" % sp)
+            out, _ = _split(ctx, df, None, spell(n, sp), s2, "split(%s)" % sp, layout=LAYOUTS[(n + 3) % len(LAYOUTS)], seed=n)
             calls += 1
             if out is not None:
                 done += 1
@@ -698,7 +863,8 @@ def extra(ctx):
             sp = SPELLINGS[(t + q) % len(SPELLINGS)]
             ctx.cur = {"index": "extra", "cls": "exhaustive", "summary": {"block_rows": t, "n": n, "particles": N,
                                                                            "offset": [float(x) for x in v]}}
-            out, _ = _split(ctx, df, None, spell(n, sp), v, "split(%s)" % sp, direct_recentre=False)
+            out, _ = _split(ctx, df, None, spell(n, sp), v, "split(%s)" % sp, direct_recentre=False,
+                            layout=LAYOUTS[(t + q) % len(LAYOUTS)], seed=t)
             bcalls += 1
             if out is not None:
                 _relational(ctx, df, n, v, out, False, repr(spell(n, sp)))
@@ -711,20 +877,20 @@ def extra(ctx):
     for _ in range(reps):
         for sp in SPELLINGS:
             for cont in CONTAINERS:
-                for okind in ("generic", "inplane", "on_axis", "zero"):
+                for okind in ("generic", "on_axis", "zero"):
                     for ikind in ("default", "glued", "odd"):
                         rng = ctx.rng(2 * 10 ** 6 + c, 9)
-                        n = [2, 3, 4, 5, 6, 7, 8, 9, 11, 12, 13, 16][c % 12]
+                        n = [2, 3, 4, 5, 6, 7, 8, 9, 11, 12, 13, 16, 10][c % 13]
                         c += 1
                         g = next((q for q in (2, 3, 5) if n % q == 0), 2)
                         N = 2 * g if ikind == "glued" else int(rng.integers(2, 5))
                         df = gens.motl_table(rng, N, tomos=2, ori="mixed", signed=bool(rng.integers(0, 2)))
                         v = rng.integers(-20, 21, 3).astype(float) if cont.startswith("int") else rng.uniform(-20, 20, 3)
-                        if okind in ("generic", "inplane") and not v[:2].any():
+                        if okind == "generic" and not v[:2].any():
                             v[0] = 3.0
-                        if okind == "inplane":
-                            v[2] = 0.0
-                        elif okind == "on_axis":
+                        if okind == "generic" and c % 4 == 0:
+                            v[2] = 0.0                                    # in-plane
+                        if okind == "on_axis":
                             v[:2] = 0.0
                         elif okind == "zero":
                             v[:] = 0.0
@@ -732,7 +898,7 @@ def extra(ctx):
                                                                                        "particles": N, "offset": [float(x) for x in v]}}
                         out, _ = _split(ctx, df, (rng.permutation(N) * 2 + 3) if ikind == "odd" else None, spell(n, sp),
                                         _container(v, cont), "split(%s)" % sp, glued=[g, g] if ikind == "glued" else None,
-                                        direct_recentre=False)
+                                        direct_recentre=False, layout=LAYOUTS[c % len(LAYOUTS)], seed=c)
                         if out is not None:
                             _relational(ctx, df, n, v, out, okind in ("on_axis", "zero"), repr(spell(n, sp)))
                             opts = (sp, cont, okind, ikind)
